@@ -2,6 +2,7 @@ package updates
 
 import (
 	"fmt"
+	"reflect"
 
 	"github.com/ovn-org/libovsdb/database"
 	"github.com/ovn-org/libovsdb/model"
@@ -685,6 +686,14 @@ func getReferenceModificationsFromSet(dbModel *model.DatabaseModel, table, uuid,
 	for _, v := range value.GoSet {
 		switch to := v.(type) {
 		case ovsdb.UUID:
+			refs[spec][to.GoUUID] = append(refs[spec][to.GoUUID], from)
+		}
+	}
+	// the difference of an optional value is its new value, not a toggle:
+	// when one reference replaces another the old one goes away as well
+	if extendedType, _, _, _ := refInfo(dbModel, table, column, false); extendedType == ovsdb.TypeUUID &&
+		len(modify.GoSet) == 1 && len(old.GoSet) == 1 && !reflect.DeepEqual(modify.GoSet[0], old.GoSet[0]) {
+		if to, ok := old.GoSet[0].(ovsdb.UUID); ok {
 			refs[spec][to.GoUUID] = append(refs[spec][to.GoUUID], from)
 		}
 	}
